@@ -360,15 +360,7 @@ def triggers(params, body, top, builtins):
         b = s.scopes[cur]["bearer"]
         if n not in sc and n in s.globals_in.get(b, ()) and would_replace(n, top, builtins):
             out.add("D29")
-    # comp_scope: an inlined (list) comprehension looks names up in the symbol table that precedes it
-    # in pre-order; wrong unless that is its enclosing function
-    for i, sc in enumerate(s.scopes):
-        if sc["kind"] == "lcomp":
-            j = i - 1
-            while s.scopes[j]["kind"] == "lcomp":
-                j -= 1
-            if j != sc["bearer"]:
-                out.add("comp_scope")
+    # comp_scope (an inlined list comprehension after a sibling lambda / def / generator expression): repaired in /repo
     # comp_var: the variable of an inlined comprehension is also read as a global somewhere in the formula
     allg = {n for n, _ in s.all_globals}
     for v, i in s.lcomp_vars:
@@ -681,7 +673,6 @@ def gen_case(rng, cid, py_builtins, stats):
 
     # ---- structure ----
     # builtin_child (repaired in /repo): child spaces and ItemSpace parameters are sometimes named like a built-in
-    # (parameters: a built-in the Gallina evaluator knows or one it does not, see props/C15.py e_case)
     def bi_name(plain, *builtin):
         return r.choice(builtin) if r.random() < 0.3 else plain
 
